@@ -165,11 +165,14 @@ def moments18(x):
     return np.array(out)
 
 
-def moments_ill_conditioned(x, tol=1e-7):
-    """True when the default 18-moment summary is not determined by its definition to working accuracy."""
+def moments_ill_conditioned(x, tol=1e-7, ref_scale=0.0):
+    """True when the default 18-moment summary is not determined by its definition to working accuracy.
+
+    `ref_scale`: magnitude of the data the series was computed from (a filtered series that is pure rounding noise of its input -
+    the HP cycle of a constant - has a spread that is tiny against THAT, not against its own size)."""
     x = np.asarray(x, dtype=float)
     for series in (x, np.abs(x[1:] - x[:-1])):
-        scale = float(np.max(np.abs(series))) if len(series) else 0.0
+        scale = max(float(np.max(np.abs(series))) if len(series) else 0.0, float(ref_scale))
         if len(series) < 7 or np.std(series) <= tol * max(scale, 1e-300):
             return True
         _, _, sk, ku, _ = raw_moments(series)
